@@ -5,6 +5,8 @@
   exists and is zero within `tol`".
 -/
 import OPModel.Proofs.PinchSpec
+import OPModel.Properties.C01
+import OPModel.Properties.C05
 import OPModel.Gen.Constants
 
 namespace OP.C06
@@ -121,6 +123,160 @@ theorem absent_iff (tol : Rat) (h : List Rat) (hn : 2 ≤ h.length) :
     simp only [pinchIdx, hbr, Bool.false_eq_true, if_false, decide_eq_false_iff_not]
     omega
 
+/-- heat content of a stream set below and above a temperature add up to its duty -/
+theorem below_add_above (ss : List Seg) (t : Rat) (h : ∀ s ∈ ss, s.lo ≤ s.hi) :
+    belowAll ss t + aboveAll ss t = total ss := by
+  induction ss with
+  | nil => simp [belowAll, aboveAll, total]
+  | cons s ss ih =>
+    have hs := h s List.mem_cons_self
+    have ih' := ih (fun x hx => h x (List.mem_cons_of_mem _ hx))
+    simp only [belowAll, aboveAll, total, List.map_cons, List.sum_cons] at ih' ⊢
+    have e : below s t + above s t = duty s := by
+      unfold below above duty
+      have : max 0 (min s.hi t - s.lo) + max 0 (s.hi - max s.lo t) = s.hi - s.lo := by
+        simp only [max_def, min_def]; split_ifs <;> linarith
+      rw [← mul_add, this]
+    linarith
+
+/-- **The reported pinch temperatures are where the exact cascade is pinched.**  On any compatible
+    grid, for any streams: run the cascade (`problemTable`), read the pinch from its residual
+    column as the code does (`pinchTemperatures` over `H_net`).  Then both reported temperatures
+    are rows of the grid, the hot one is not colder than the cold one, no temperature at all has a
+    larger net heat deficit above it than `Qh`, and the deficit above each reported temperature is
+    within `tol` of that maximum - i.e. the residual heat flow through it is (numerically) zero. -/
+theorem pinch_is_where_cascade_is_pinched (tol w : Rat) (htol : 0 < tol) (hw : 0 ≤ w) (htw : tol ≤ w)
+    (hot cold : List Seg) (t0 : Rat) (rest : List Rat)
+    (hr : InRange (cold ++ hot) ((t0 :: rest).getLast (List.cons_ne_nil _ _)) t0)
+    (hch : ChainOK w (cold ++ hot) t0 rest)
+    (pt : PT) (tg : Targets) (hpt : problemTable tol w (t0 :: rest) hot cold = .ok pt) (htg : pt.targets = .ok tg)
+    (hnz : ∃ i, i < pt.hNet.length ∧ ¬ Z tol pt.hNet i)
+    (th tc : Rat) (hp : pinchTemperatures tol (t0 :: rest) pt.hNet = .ok (some (th, tc))) :
+    th ∈ t0 :: rest ∧ tc ∈ t0 :: rest ∧ tc ≤ th ∧
+    (∀ x : Rat, deficit hot cold x ≤ tg.qh) ∧
+    tg.qh - tol < deficit hot cold th ∧ tg.qh - tol < deficit hot cold tc := by
+  obtain ⟨pt', tg', hpt', htg', _, _, hnet, _, x0, hx0, hx00⟩ :=
+    C05.curves_are_content tol w hw htw hot cold t0 rest hr hch
+  rw [hpt] at hpt'; cases hpt'
+  rw [htg] at htg'; cases htg'
+  obtain ⟨t, ht, hmax, _, _, hqc, _⟩ := C01.di_targets_exact tol w hw htw hot cold t0 rest hr hch
+  have htt : t = tg := by
+    simp only [directTargets, hpt] at ht
+    have : pt.targets = .ok t := ht
+    rw [htg] at this; cases this; rfl
+  subst htt
+  have hs : ∀ s ∈ cold ++ hot, s.lo ≤ s.hi := fun s h => (hr s h).1
+  -- every entry of the residual column is Qh minus the deficit above its temperature
+  have hrow : ∀ i (hi : i < (t0 :: rest).length), pt.hNet[i]? = some (t.qh - deficit hot cold (t0 :: rest)[i]) := by
+    intro i hi
+    rw [hnet, List.getElem?_map, List.getElem?_eq_getElem hi, Option.map_some]
+    congr 1
+    have a := below_add_above cold (t0 :: rest)[i] (fun s h => hs s (List.mem_append_left _ h))
+    have b := below_add_above hot (t0 :: rest)[i] (fun s h => hs s (List.mem_append_right _ h))
+    unfold deficit
+    linarith
+  have hlen : (t0 :: rest).length = pt.hNet.length := by rw [hnet, List.length_map]
+  have hz : ∃ i, Z tol pt.hNet i := by
+    obtain ⟨i, hi, e⟩ := List.getElem_of_mem hx0
+    refine ⟨i, x0, by rw [List.getElem?_eq_getElem hi, e], ?_⟩
+    simp only [isZero, decide_eq_true_eq, hx00, rabs]
+    simpa using htol
+  obtain ⟨a, b, ha, hb, hv, hab, hbl, hza, hzb, _⟩ := pinch_rows_spec tol pt.hNet hz hnz
+  have hal : a < (t0 :: rest).length := by omega
+  have hbl' : b < (t0 :: rest).length := by omega
+  have idx : ∀ k (hk : k < (t0 :: rest).length), pyIndex (t0 :: rest) (k : Int) = some (t0 :: rest)[k] := by
+    intro k hk
+    unfold pyIndex
+    have h1 : ¬ ((k : Int) < 0) := by omega
+    simp only [h1, if_false]
+    have h2 : (0 : Int) ≤ k ∧ (k : Int) < (t0 :: rest).length := by omega
+    simp only [h2, and_self, if_true, Int.toNat_natCast, List.getElem?_eq_getElem hk]
+  have hpe : pinchTemperatures tol (t0 :: rest) pt.hNet = .ok (some ((t0 :: rest)[a], (t0 :: rest)[b])) := by
+    simp only [pinchTemperatures, hv, if_true, ha, hb, idx a hal, idx b hbl']
+  rw [hpe] at hp
+  have hth : th = (t0 :: rest)[a] := by injection hp with h; injection h with h; injection h with h1 h2; exact h1.symm
+  have htc : tc = (t0 :: rest)[b] := by injection hp with h; injection h with h; injection h with h1 h2; exact h2.symm
+  have hdesc : (t0 :: rest).Pairwise (· > ·) := C05.curves_are_content.gapless hw rest t0 hch
+  have zero_row : ∀ k (hk : k < (t0 :: rest).length), Z tol pt.hNet k → t.qh - tol < deficit hot cold (t0 :: rest)[k] := by
+    intro k hk ⟨x, hx, hzx⟩
+    rw [hrow k hk] at hx
+    cases hx
+    simp only [isZero, decide_eq_true_eq, rabs_eq_abs] at hzx
+    have := (abs_lt.mp hzx).2
+    linarith
+  refine ⟨hth ▸ List.getElem_mem hal, htc ▸ List.getElem_mem hbl', ?_, hmax, ?_, ?_⟩
+  · rw [hth, htc]
+    rcases Nat.lt_or_eq_of_le hab with hlt | heq
+    · exact le_of_lt (List.pairwise_iff_getElem.mp hdesc a b hal hbl' hlt)
+    · subst heq; exact le_refl _
+  · rw [hth]; exact zero_row a hal hza
+  · rw [htc]; exact zero_row b hbl' hzb
+
+/-- **No pinch is missed.**  In the same setting: every grid temperature at which the net heat
+    deficit attains its maximum `Qh` exactly (a true pinch of the exact cascade), and which has a
+    non-pinched row somewhere above it and somewhere below it, lies between the two reported pinch
+    temperatures. -/
+theorem exact_pinches_lie_between (tol w : Rat) (htol : 0 < tol) (hw : 0 ≤ w) (htw : tol ≤ w)
+    (hot cold : List Seg) (t0 : Rat) (rest : List Rat)
+    (hr : InRange (cold ++ hot) ((t0 :: rest).getLast (List.cons_ne_nil _ _)) t0)
+    (hch : ChainOK w (cold ++ hot) t0 rest)
+    (pt : PT) (tg : Targets) (hpt : problemTable tol w (t0 :: rest) hot cold = .ok pt) (htg : pt.targets = .ok tg)
+    (th tc : Rat) (hp : pinchTemperatures tol (t0 :: rest) pt.hNet = .ok (some (th, tc)))
+    (z : Nat) (hz : z < (t0 :: rest).length) (hpinched : deficit hot cold (t0 :: rest)[z] = tg.qh)
+    (habove : ∃ j, j < z ∧ ¬ Z tol pt.hNet j) (hbelow : ∃ j, z < j ∧ j < pt.hNet.length ∧ ¬ Z tol pt.hNet j) :
+    tc ≤ (t0 :: rest)[z] ∧ (t0 :: rest)[z] ≤ th := by
+  obtain ⟨pt', tg', hpt', htg', _, _, hnet, _, _⟩ :=
+    C05.curves_are_content tol w hw htw hot cold t0 rest hr hch
+  rw [hpt] at hpt'; cases hpt'
+  rw [htg] at htg'; cases htg'
+  obtain ⟨t, ht, _, _, _, hqc, _⟩ := C01.di_targets_exact tol w hw htw hot cold t0 rest hr hch
+  have htt : t = tg := by
+    simp only [directTargets, hpt] at ht
+    have : pt.targets = .ok t := ht
+    rw [htg] at this; cases this; rfl
+  subst htt
+  have hs : ∀ s ∈ cold ++ hot, s.lo ≤ s.hi := fun s h => (hr s h).1
+  have hlen : (t0 :: rest).length = pt.hNet.length := by rw [hnet, List.length_map]
+  have hzz : Z tol pt.hNet z := by
+    refine ⟨0, ?_, ?_⟩
+    · rw [hnet, List.getElem?_map, List.getElem?_eq_getElem hz, Option.map_some]
+      congr 1
+      have a := below_add_above cold (t0 :: rest)[z] (fun s h => hs s (List.mem_append_left _ h))
+      have b := below_add_above hot (t0 :: rest)[z] (fun s h => hs s (List.mem_append_right _ h))
+      unfold deficit at hpinched
+      linarith
+    · simp only [isZero, decide_eq_true_eq, rabs]
+      simpa using htol
+  have hnz : ∃ i, i < pt.hNet.length ∧ ¬ Z tol pt.hNet i := by
+    obtain ⟨j, hj, hn⟩ := habove
+    exact ⟨j, by omega, hn⟩
+  obtain ⟨a, b, ha, hb, hv, hab, hbl, _⟩ := pinch_rows_spec tol pt.hNet ⟨z, hzz⟩ hnz
+  obtain ⟨h1, h2⟩ := zeros_between_pinches tol pt.hNet ⟨z, hzz⟩ hnz z hzz habove hbelow
+  rw [ha] at h1; rw [hb] at h2
+  have haz : a ≤ z := by omega
+  have hzb : z ≤ b := by omega
+  have hal : a < (t0 :: rest).length := by omega
+  have hbl' : b < (t0 :: rest).length := by omega
+  have idx : ∀ k (hk : k < (t0 :: rest).length), pyIndex (t0 :: rest) (k : Int) = some (t0 :: rest)[k] := by
+    intro k hk
+    unfold pyIndex
+    have h1 : ¬ ((k : Int) < 0) := by omega
+    simp only [h1, if_false]
+    have h2 : (0 : Int) ≤ k ∧ (k : Int) < (t0 :: rest).length := by omega
+    simp only [h2, and_self, if_true, Int.toNat_natCast, List.getElem?_eq_getElem hk]
+  have hpe : pinchTemperatures tol (t0 :: rest) pt.hNet = .ok (some ((t0 :: rest)[a], (t0 :: rest)[b])) := by
+    simp only [pinchTemperatures, hv, if_true, ha, hb, idx a hal, idx b hbl']
+  rw [hpe] at hp
+  have hth : th = (t0 :: rest)[a] := by injection hp with h; injection h with h; injection h with h1 h2; exact h1.symm
+  have htc : tc = (t0 :: rest)[b] := by injection hp with h; injection h with h; injection h with h1 h2; exact h2.symm
+  have hdesc : (t0 :: rest).Pairwise (· > ·) := C05.curves_are_content.gapless hw rest t0 hch
+  have mono : ∀ i j (hi : i < (t0 :: rest).length) (hj : j < (t0 :: rest).length), i ≤ j → (t0 :: rest)[j] ≤ (t0 :: rest)[i] := by
+    intro i j hi hj hij
+    rcases Nat.lt_or_eq_of_le hij with hlt | heq
+    · exact le_of_lt (List.pairwise_iff_getElem.mp hdesc i j hi hj hlt)
+    · subst heq; exact le_refl _
+  exact ⟨htc ▸ mono z b hz hbl' hzb, hth ▸ mono a z hal hz haz⟩
+
 /-- The full statement "absent only when the residual has no zero" is FALSE of the code: an
     all-zero residual (perfectly balanced problem) is reported absent although every row is
     pinched. Recorded as known finding `C06-all-zero` (a pinned test requires this behaviour). -/
@@ -132,5 +288,18 @@ theorem pinch_allzero_witness :
 
 /-- Non-vacuity of the hypotheses of `pinch_rows_spec` and a concrete threshold column. -/
 example : (pinchIdx Gen.tol [0, 0, 5, 0, 3, 0, 0]) = ⟨1, 5, true⟩ := by decide +kernel
+
+
+/-- Non-vacuity of `pinch_is_where_cascade_is_pinched`: the two-stream problem of C01 on its grid
+    is a threshold problem (Qh = 0): the pinch is reported at the top row 190. -/
+example : (do
+    let pt ← problemTable Gen.tol (Gen.activityFactor * Gen.tol) [190, 170, 110, 50] [⟨110, 190, 100, 100⟩] [⟨50, 170, 50, 50⟩]
+    pinchTemperatures Gen.tol [190, 170, 110, 50] pt.hNet) = .ok (some (190, 190)) := by decide +kernel
+
+/-- ... and an interior pinch: hot 170 -> 50 (6000 kW), cold 110 -> 190 (8000 kW): Qh = 5000 and the
+    residual vanishes at the shifted temperature 110 only. -/
+example : (do
+    let pt ← problemTable Gen.tol (Gen.activityFactor * Gen.tol) [190, 170, 110, 50] [⟨50, 170, 50, 50⟩] [⟨110, 190, 100, 100⟩]
+    pinchTemperatures Gen.tol [190, 170, 110, 50] pt.hNet) = .ok (some (110, 110)) := by decide +kernel
 
 end OP.C06
